@@ -289,8 +289,8 @@ ORACLES = [
         check_orthorhombic,
         classify=lambda c: c["C"]["k"],
         quick=150,
-        thorough=1500,
+        thorough=4000,
     ),
-    Oracle("voigt_average_frame", avg_case(), check_average_frame, quick=80, thorough=600),
+    Oracle("voigt_average_frame", avg_case(), check_average_frame, quick=80, thorough=2000),
     Oracle("general_moduli", st.fixed_dictionaries({"m": sym21}), check_general, quick=150, thorough=1500),
 ]
